@@ -1032,7 +1032,7 @@ def corr_hals_cp(rng, tier):
             Fs[rng.randrange(order)][:, rng.randrange(rank)] = 0.0
         w = np.ones(rank) if rng.random() < 0.6 else np.array([rng.choice([0.5, 2.0, 1.0]) for _ in range(rank)])
         nm = rng.random() < 0.4
-        fixed = [rng.randrange(order - 1)] if rng.random() < 0.3 else []
+        fixed = [rng.randrange(order)] if rng.random() < 0.4 else []        # the last mode may be fixed here (weights then go into the last updated mode)
         modes = [m for m in range(order) if m not in fixed]
         nn = "all" if rng.random() < 0.5 else sorted(set(modes + ([fixed[0]] if fixed and rng.random() < 0.5 else [])))
         sps = None if rng.random() < 0.6 else [rng.choice([None, 0.0, 0.1, 0.5]) for _ in range(order)]
@@ -1242,6 +1242,9 @@ def run_correspondence(chk, rng):
     groups += corr_tucker_hals(rng, chk.tier)
     groups += corr_aset(rng, chk.tier)
     groups += corr_tucker_aset(rng, chk.tier)
+    groups += corr_initialisers(rng, chk.tier)
+    groups += corr_ccp(rng, chk.tier)
+    groups += corr_parafac2_iter(rng, chk.tier)
     groups += corr_line(rng, chk.tier, chk)
     # interleave the groups so that every shard gets a mix of cheap and expensive cases
     nsh = max(1, -(-len(groups) // (9 if chk.tier == "quick" else 15)))
@@ -1286,3 +1289,159 @@ def run_correspondence(chk, rng):
     for i in bad:
         chk.disagreement("corr:C10 (Model/Nonneg.v vs " + meta[i]["corr"] + ")", meta[i])
     return len(cases)
+
+
+# ============================================================================= round 4: initialisers, constrained_parafac, PARAFAC2 outer iteration
+class _SvdTape:
+    """records the answers of svd_interface inside one decomposition module (harness-level interposition, /repo untouched)"""
+    def __init__(self, module):
+        self.module, self.calls = module, []
+
+    def __enter__(self):
+        self.orig = self.module.svd_interface
+        def rec(*a, **k):
+            r = self.orig(*a, **k)
+            self.calls.append(tuple(None if x is None else np.array(x, copy=True) for x in r))
+            return r
+        self.module.svd_interface = rec
+        return self
+
+    def __exit__(self, *exc):
+        self.module.svd_interface = self.orig
+
+
+def corr_initialisers(rng, tier):
+    import tensorly as tl
+    from tensorly.decomposition import _cp, _tucker, _constrained_cp, _parafac2
+    from tensorly.decomposition import parafac2
+    from tensorly.random import random_cp
+    out = []
+    nrun = 6 if tier == "quick" else 40
+    for k in range(nrun):
+        order = rng.choice([2, 3])
+        shape = tuple(rng.randint(2, 4) for _ in range(order))
+        rank = rng.randint(1, min(shape))
+        klass = rng.choice(["signed", "signed", "nonneg", "negative", "sparse"])
+        X = gen_float_tensor(rng, shape, klass)
+        nm = rng.random() < 0.5
+        seed = rng.randrange(10 ** 6)
+        # ---- initialize_cp(non_negative=True): svd (NNDSVD answers recorded) / random (random_cp re-drawn with the same seed)
+        if rng.random() < 0.6:
+            with _SvdTape(_cp) as tape:
+                st, r = C.call_impl(lambda: _cp.initialize_cp(X.copy(), rank, init="svd", non_negative=True, normalize_factors=nm, random_state=seed))
+            if st == "ok" and len(tape.calls) == order and finite_all(r[0], *r[1]):
+                Us = [c[0][:, :rank] for c in tape.calls]
+                S0 = tape.calls[0][1][:rank]
+                out.append((f"(OInitCp {rank}%nat {qmats_lit(Us)} {qvec_lit(S0)} {C.boolc(nm)})", Fraction(1, 10 ** 12), r[0], list(r[1]),
+                            {"corr": "initialize_cp (svd, non_negative)", "tensor": X, "rank": rank, "normalize": nm}))
+        else:
+            st, r = C.call_impl(lambda: _cp.initialize_cp(X.copy(), rank, init="random", non_negative=True, normalize_factors=nm, random_state=seed))
+            raw = random_cp(shape, rank, normalise_factors=False, random_state=tl.check_random_state(seed))
+            if st == "ok" and finite_all(r[0], *r[1]):
+                out.append((f"(OInitCp {rank}%nat {qmats_lit(list(raw[1]))} {qvec_lit(np.ones(rank))} {C.boolc(nm)})", Fraction(1, 10 ** 12), r[0], list(r[1]),
+                            {"corr": "initialize_cp (random, non_negative)", "tensor": X, "rank": rank, "normalize": nm, "seed": seed}))
+        # ---- initialize_tucker(non_negative=True): a SIGNED user (core, factors) and the svd start (signed core recomputed by the model)
+        ranks = [rng.randint(1, min(2, s)) for s in shape]
+        ucore = np.array([rng.gauss(0, 1) for _ in range(int(np.prod(ranks)))]).reshape(ranks)
+        uFs = [np.array([[rng.gauss(0, 1) for _ in range(r_)] for _ in range(s_)]) for s_, r_ in zip(shape, ranks)]
+        st, r = C.call_impl(lambda: _tucker.initialize_tucker(X.copy(), list(ranks), list(range(order)), None, init=(ucore.copy(), [f.copy() for f in uFs]), non_negative=True))
+        if st == "ok":
+            out.append((f"(OInitTk {C.qtensor(ranks, [float(x) for x in ucore.reshape(-1)])} {qmats_lit(uFs)})", Fraction(0), np.asarray(r[0]).reshape(-1), list(r[1]),
+                        {"corr": "initialize_tucker (signed user init, non_negative)", "core": ucore, "factors": uFs}))
+        with _SvdTape(_tucker) as tape:
+            st, r = C.call_impl(lambda: _tucker.initialize_tucker(X.copy(), list(ranks), list(range(order)), seed, init="svd", non_negative=True))
+        if st == "ok" and len(tape.calls) == order and finite_all(r[0], *r[1]):
+            Us = [c[0] for c in tape.calls]
+            if all(u.shape[1] == rk for u, rk in zip(Us, ranks)):
+                out.append((f"(OInitTkSvd {C.qtensor(shape, [float(x) for x in X.reshape(-1)])} {C.nat_list(ranks)} {qmats_lit(Us)})",
+                            Fraction(max(1.0, float(np.abs(X).max()))) / 10 ** 10, np.asarray(r[0]).reshape(-1), list(r[1]),
+                            {"corr": "initialize_tucker (svd, non_negative)", "tensor": X, "rank": ranks}))
+        # ---- initialize_constrained_parafac(non_negative = modes): plain (signed) SVD answers recorded
+        nn = sorted(rng.sample(range(order), rng.randint(1, order)))
+        with _SvdTape(_constrained_cp) as tape:
+            st, r = C.call_impl(lambda: _constrained_cp.initialize_constrained_parafac(X.copy(), rank, init="svd", random_state=seed,
+                                                                                       non_negative={m: True for m in nn}))
+        if st == "ok" and len(tape.calls) == order and finite_all(*r[1]):
+            Us = [c[0][:, :rank] for c in tape.calls]
+            S0 = tape.calls[0][1][:rank]
+            out.append((f"(OInitCcp {C.nat_list(nn)} {qmats_lit(Us)} {qvec_lit(S0)})", Fraction(1, 10 ** 12), [], list(r[1]),
+                        {"corr": "initialize_constrained_parafac (svd, non_negative)", "tensor": X, "rank": rank, "nn_modes": nn}))
+        # ---- parafac2 built-in start at cap 0 (raw factors = initialize_decomposition, deterministic)
+        I, J, K = rng.randint(2, 3), rng.randint(2, 4), rng.randint(2, 4)
+        R = rng.randint(1, min(J, K, 2))
+        slices = [np.array([[rng.gauss(0, 1) for _ in range(K)] for _ in range(J)]) for _ in range(I)]
+        nn2 = rng.choice(["all", [0], [2], [0, 2], [1, 2], [0, 1, 2]])
+        st, raw = C.call_impl(lambda: _parafac2.initialize_decomposition([s_.copy() for s_ in slices], R, init="svd", random_state=tl.check_random_state(seed)))
+        st2, r = C.call_impl(lambda: parafac2([s_.copy() for s_ in slices], R, n_iter_max=0, init="svd", nn_modes=nn2, normalize_factors=nm, random_state=seed))
+        if st == "ok" and st2 == "ok" and finite_all(r[0], *r[1]):
+            decl = [0, 1, 2] if nn2 == "all" else nn2
+            out.append((f"(OInitP2 {C.nat_list(decl)} {qmats_lit([np.asarray(f) for f in raw[1]])} {C.boolc(nm)})", Fraction(1, 10 ** 12), r[0], list(r[1]),
+                        {"corr": "parafac2 built-in start (svd, nn_modes, cap 0)", "slices": slices, "rank": R, "nn_modes": nn2, "normalize": nm}))
+    return out
+
+
+def corr_ccp(rng, tier):
+    """complete constrained_parafac(non_negative=...) runs: mttkrp, Hadamard Gram, rho, the split solve (elimination inside Coq), prox, dual update,
+    which of (x, x_split) is returned; tol_inner = tol_outer = 0 -> exactly inner x n iterations"""
+    from tensorly.decomposition import constrained_parafac
+    out = []
+    nrun = 6 if tier == "quick" else 40
+    for k in range(nrun):
+        order = rng.choice([2, 3])
+        shape = tuple(rng.randint(2, 3) for _ in range(order))
+        rank = rng.choice([1, 2])
+        X = gen_float_tensor(rng, shape, rng.choice(["signed", "signed", "nonneg", "negative", "sparse"]))
+        Fs = [np.array([[rng.random() + 0.1 for _ in range(rank)] for _ in range(s)]) for s in shape]
+        fixed = [rng.randrange(order - 1)] if rng.random() < 0.25 else []
+        modes = [m for m in range(order) if m not in fixed]
+        nn = list(range(order)) if rng.random() < 0.5 else sorted(rng.sample(range(order), rng.randint(1, order)))
+        n, inner = rng.choice([1, 1, 2]), rng.choice([1, 2, 3])
+        st, r = C.call_impl(lambda: constrained_parafac(X.copy(), rank, n_iter_max=n, n_iter_max_inner=inner, init=(np.ones(rank), [f.copy() for f in Fs]),
+                                                        tol_outer=0, tol_inner=0, fixed_modes=list(fixed), non_negative={m: True for m in nn}), timeout=120)
+        if st != "ok" or not finite_all(*r[1]):
+            continue
+        op = f"(OCcp {C.qtensor(shape, [float(x) for x in X.reshape(-1)])} {qmats_lit(Fs)} {C.nat_list(nn)} {C.nat_list(modes)} {n}%nat {inner}%nat)"
+        scale = max(1.0, max(float(np.abs(f).max()) for f in r[1]))
+        out.append((op, Fraction(scale) / 10 ** 8, [], list(r[1]),
+                    {"corr": "constrained_parafac (non_negative)", "tensor": X, "factors": Fs, "nn_modes": nn, "fixed": fixed, "n": n, "inner": inner}))
+    return out
+
+
+def corr_parafac2_iter(rng, tier):
+    """one outer iteration of parafac2(nn_modes='all', linesearch=False) from a user (weights, factors, projections): the projections of that
+    iteration (SVD oracle) are recomputed with TensorLy's own helper and the projected tensor is handed to the model as data"""
+    from tensorly.decomposition import parafac2
+    from tensorly.decomposition import _parafac2 as P2
+    from tensorly.cp_tensor import cp_normalize
+    out = []
+    nrun = 5 if tier == "quick" else 30
+    for k in range(nrun):
+        I, J, K = rng.randint(2, 3), rng.randint(2, 4), rng.randint(2, 3)
+        R = rng.randint(1, min(J, K, 2))
+        slices = [np.array([[rng.gauss(0, 1) for _ in range(K)] for _ in range(J)]) for _ in range(I)]
+        if rng.random() < 0.3:
+            slices = [np.abs(s_) for s_ in slices]
+        Fs = [np.array([[rng.random() + 0.1 for _ in range(R)] for _ in range(d)]) for d in (I, R, K)]
+        w = np.ones(R) if rng.random() < 0.5 else np.array([rng.choice([0.5, 2.0, 1.5]) for _ in range(R)])
+        projs = [np.linalg.qr(np.array([[rng.gauss(0, 1) for _ in range(R)] for _ in range(J)]))[0] for _ in range(I)]
+        nm = rng.random() < 0.4
+        nip = rng.choice([1, 2])
+        st, r = C.call_impl(lambda: parafac2([s_.copy() for s_ in slices], R, n_iter_max=1, init=(w.copy(), [f.copy() for f in Fs], [p.copy() for p in projs]),
+                                             nn_modes="all", linesearch=False, normalize_factors=nm, n_iter_parafac=nip, tol=1e-8), timeout=120)
+        if st != "ok" or not finite_all(r[0], *r[1]):
+            continue
+        w1, f1 = (w, Fs)
+        if nm:
+            w1, f1 = cp_normalize((w.copy(), [f.copy() for f in Fs]))
+            w1, f1 = np.asarray(w1), [np.asarray(f) for f in f1]
+        f1 = [f.copy() for f in f1]
+        f1[1] = f1[1] * w1.reshape(1, -1)
+        st2, T = C.call_impl(lambda: P2._project_tensor_slices(slices, P2._compute_projections(slices, f1, "truncated_svd")))
+        if st2 != "ok":
+            continue
+        T = np.asarray(T)
+        op = f"(OP2Iter {C.qtensor(T.shape, [float(x) for x in T.reshape(-1)])} {qvec_lit(w)} {qmats_lit(Fs)} {nip}%nat {C.boolc(nm)} {C.q(1e-8)})"
+        scale = max(1.0, max(float(np.abs(f).max()) for f in r[1]), float(np.abs(r[0]).max()))
+        out.append((op, Fraction(scale) / 10 ** 8, r[0], list(r[1]),
+                    {"corr": "parafac2 outer iteration", "slices": slices, "weights": w, "factors": Fs, "normalize": nm, "n_iter_parafac": nip}))
+    return out
